@@ -63,7 +63,7 @@ A2 == Dense(30, v2, 2, 2, <<2, 1, 1, 3>>)          \* same matrix as A, another 
 m222 == LeafF(<<2, 2, 2>>)
 Mc == Term("mvax", 31, m222, <<0, 1, 2, 1, 2, 0>>, <<>>)   \* cyclic shift of three axes of equal length (not an involution)
 Mn == Term("mvax", 32, m222, <<-3, -1, -1, -2>>, <<>>)     \* two axes, negative positions
-Dq == Term("diagq", 33, v2, <<16777216, 1, -3>>, <<>>)   \* values 2^-24 and -3 * 2^-24: tiny non-zero entries
+Dq == Term("diagq", 33, v2, <<1073741824, 1, -1>>, <<>>)   \* values 2^-30 and -2^-30 (9.3e-10): tiny non-zero entries
 Dh == Term("diagq", 34, v3, <<2, 1, 2000000, 3>>, <<>>)         \* values 1/2, 10^6, 3/2
 
 \* ---- pytree-structured spaces: L22 = [v2, v2] (also the structure of block containers over two v2 blocks)
@@ -76,6 +76,11 @@ BDi == Term("bdiag", 38, List2, <<>>, <<InvOf(A), DInvOf(D)>>)  \* its block-wis
 BRl == Term("brow", 39, List2, <<>>, <<A, B>>)                  \* L22 -> v2
 BCl == Term("bcol", 40, List2, <<>>, <<B, D>>)                  \* v2 -> L22
 
+\* the same two block operators over a tuple container: same leaves as BRl / BCl, another tree structure
+Tuple2 == TupleS(<<OpL(1), OpL(2)>>)
+BRt == Term("brow", 50, Tuple2, <<>>, <<A, B>>)                 \* (v2, v2) -> v3   (a tuple, where BRl takes a list)
+BCt == Term("bcol", 51, Tuple2, <<>>, <<B, D>>)                 \* v2 -> (v3, v2)   (a tuple, where BCl returns a list)
+
 \* ---- move-axis pairs that are NOT inverses although their argument tuples look alike
 m234 == LeafF(<<2, 3, 4>>)
 Lmix == ListS(<<m23, m222>>)                                    \* leaves of different rank
@@ -86,6 +91,10 @@ Mb == Term("mvax", 44, LeafF(<<4, 2, 3>>), <<2, 1, 0, 1>>, <<>>)   \* (2,1) -> (
 
 \* the TOAST observation matrix operator (square, sparse, not symmetric)
 Ob == Term("obs", 45, v3, <<3, 3, 2, 0, 1, 0, 3, 0, -1, 4, 5>>, <<>>)
+
+\* indexings that keep the shape without being the identity: a permutation and a repeated negative index
+Pp == Term("index", 48, v2, <<1, 1, 0>>, <<>>)                    \* v2 -> v2, unique, not the identity
+Pn == Term("index", 49, v2, <<0, -1, -1>>, <<>>)                  \* v2 -> v2, the last element twice
 
 Inv(t) == InvOf(t)
 
@@ -103,7 +112,8 @@ AtomTable ==
     I2v |-> Id(v2), I3v |-> Id(v3), Iqu |-> Id(QU2), Im |-> Id(m23),
     H2 |-> Hom(2, 1, v2), Hh |-> Hom(-1, 2, v2), H3 |-> Hom(3, 1, v3), Hq |-> Hom(-3, 1, QU2), Hm |-> Hom(1, 2, m23),
     H6 |-> Hom(2, 1, v6), D0 |-> D0, D0I |-> DInvOf(D0), Dl |-> Dl, DlI |-> DInvOf(Dl), Prl |-> Prl, PrlT |-> TOf(Prl), BDl |-> BDl, BDi |-> BDi, BRl |-> BRl, BCl |-> BCl,
-    Il |-> Id(L22), Hl |-> Hom(-2, 1, L22), Ob |-> Ob, ObT |-> TOf(Ob), Mp |-> Mp, Mq |-> Mq, MpT |-> Transpose(Mp), Ma |-> Ma, Mb |-> Mb, MaT |-> Transpose(Ma), Mc |-> Mc, McT |-> Transpose(Mc), Mn |-> Mn, Dq |-> Dq, DqI |-> DInvOf(Dq), Dh |-> Dh, D3I |-> DInvOf(D3), AB |-> AddT(<<A, B>>) ]
+    Il |-> Id(L22), Hl |-> Hom(-2, 1, L22), Ob |-> Ob, ObT |-> TOf(Ob), Mp |-> Mp, Mq |-> Mq, MpT |-> Transpose(Mp), Ma |-> Ma, Mb |-> Mb, MaT |-> Transpose(Ma), Mc |-> Mc, McT |-> Transpose(Mc), Mn |-> Mn, Dq |-> Dq, DqI |-> DInvOf(Dq), Dh |-> Dh, D3I |-> DInvOf(D3), AB |-> AddT(<<A, B>>),
+    Pp |-> Pp, PpT |-> TOf(Pp), Pn |-> Pn, BRt |-> BRt, BCt |-> BCt ]
 
 AllAtomNames == DOMAIN AtomTable
 =============================================================================
